@@ -59,7 +59,7 @@ macro_rules! recogniser {
                         cover!(s.len() == $n, "declined_full_length_input");
                     }
                 }
-                cover!(s.len() == $n && !s.is_ascii(), "non_ascii_full_length_input_handled");
+                cover!(s.len() == $n && ($ascii || !s.is_ascii()), "full_length_input_handled_non_ascii_unless_ascii_only");
             }
         }
     };
@@ -144,6 +144,54 @@ macro_rules! shebang {
 }
 shebang!(c06_shebang_3, 3, 6);
 shebang!(c06_shebang_4, 4, 7);
+
+/// The parser's token layer (`Parser::next`, through hook H8) on every UTF-8 string of <= N bytes: whatever it
+/// reports - a token, an invalid-token error, the end-of-input error, or `run_parser`'s "failed to parse the entire
+/// input" - cites a location inside the file whose ends lie on character boundaries. The recognisers are replaced by
+/// `next_token_declines` as in `c06_err_span_*` (they have their own harnesses).
+macro_rules! parser_next {
+    ($name:ident, $n:expr, $unwind:expr) => {
+        #[cfg_attr(kani, kani::proof)]
+        #[cfg_attr(kani, kani::unwind($unwind))]
+        #[cfg_attr(kani, kani::stub(roto::parser::lexer::Lexer::next_token, next_token_declines))]
+        pub fn $name() {
+            let b: Bytes<$n> = Bytes::any();
+            if let Some(s) = b.as_str() {
+                let mut spans = roto::verif_api::Spans::default();
+                let mut seen: Option<Result<Range<usize>, Range<usize>>> = None;
+                let r = roto::verif_api::Parser::run_parser(
+                    |p| {
+                        seen = Some(p.verif_next());
+                        Ok(())
+                    },
+                    0,
+                    &mut spans,
+                    s,
+                );
+                let inside = |loc: &Range<usize>| {
+                    loc.start <= loc.end && loc.end <= s.len() && s.is_char_boundary(loc.start) && s.is_char_boundary(loc.end)
+                };
+                match &seen {
+                    Some(Err(loc)) => {
+                        assert!(inside(loc), "the parser's error location is outside the file or inside a character");
+                        cover!(loc.start == s.len() && s.len() == $n && !s.is_ascii(), "end_of_input_after_non_ascii_text");
+                        cover!(loc.end > loc.start, "invalid_token");
+                    }
+                    Some(Ok(_)) => assert!(false, "no recogniser fired, yet a token was returned"),
+                    None => assert!(false, "the parser closure did not run"),
+                }
+                if let Err(e) = r {
+                    let loc = e.location.start..e.location.end;
+                    assert!(inside(&loc), "run_parser's error location is outside the file or inside a character");
+                    std::mem::forget(e);
+                }
+                std::mem::forget(spans);
+            }
+        }
+    };
+}
+parser_next!(c06_parser_next_3, 3, 6);
+parser_next!(c06_parser_next_4, 4, 7);
 
 macro_rules! fstring_part {
     ($name:ident, $n:expr, $unwind:expr) => {
@@ -243,6 +291,8 @@ char_range!(c06_char_range_3, 3, 6);
 char_range!(c06_char_range_4, 4, 7);
 
 crate::list![
+    c06_parser_next_3,
+    c06_parser_next_4,
     c06_shebang_3,
     c06_shebang_4,
     c06_char_range_2,
